@@ -4,7 +4,7 @@
 From RV.Model Require Import Base Word Limbs Bytes DivRecip DivSmall Redc.
 From RV.Gen Require Import Prim Scalar.
 From RV.Model Require Add Mul UDiv.
-From RV.Proofs Require Import PfGenScalar PfGenAdd PfGenMul PfGenDiv.
+From RV.Proofs Require Import PfGenScalar PfGenAdd PfGenMul PfGenDiv PfGenSpecial.
 
 Theorem GenTie_source_equals_model :
   (forall bits, 0 <= bits -> bits + 63 < B -> g_nlimbs bits = Val (nlimbs bits)) /\
@@ -156,6 +156,18 @@ Proof.
               (g_div_ceil_eq bits a b H0 HB Ha Hb Wa Wb))))))).
 Qed.
 Print Assumptions GenTie_div_rs.
+
+(* src/special.rs: (checked_)next_multiple_of, on canonical operands *)
+Theorem GenTie_special_rs : forall bits a b,
+  0 <= bits -> nlimbs bits <= B -> canon bits a -> canon bits b ->
+  g_checked_next_multiple_of bits (nlimbs bits) a b = UDiv.checked_next_multiple_of bits a b /\
+  g_next_multiple_of bits (nlimbs bits) a b = UDiv.next_multiple_of bits a b.
+Proof.
+  intros bits a b H0 HB Ca Cb.
+  exact (conj (g_checked_next_multiple_of_eq bits a b H0 HB Ca Cb)
+              (g_next_multiple_of_eq bits a b H0 HB Ca Cb)).
+Qed.
+Print Assumptions GenTie_special_rs.
 
 (* the premises are satisfiable and the generated code computes: reciprocal(2^63) = 2^64 - 1 *)
 Example GenTie_nonvacuous :
